@@ -108,14 +108,14 @@ PAIRS: List[Tuple[str, str, str, List[Step]]] = [
     ("lifespan", "Lifespan.asgi_send", "lifespan send", []),
     ("lifespan", "Lifespan.wait_for_startup", "startup wait", [
         ("task started", P("self._started.wait", [], awaited=True), None, "D7: asyncio has no nursery.start(); _started mimics task_status.started()"),
-        ("send startup", P("self.app_queue.put", ["{'type': 'lifespan.startup'}"], awaited=True, guard=("self.supported", True)), P("self.app_send_channel.send", ["{'type': 'lifespan.startup'}"], awaited=True, guard=("self.supported", True)), ""),
+        ("send startup", P("self.app_queue.put", ["{'type': 'lifespan.startup'}"], awaited=True, guard=("self.supported", True)), P("self.app_send_channel.send", ["{'type': 'lifespan.startup'}"], awaited=True, guard=("self.supported", True), in_try_with={"BrokenResourceError", "ClosedResourceError"}), ""),
         ("bounded wait", P("asyncio.wait_for", ["self.startup.wait()", "timeout=self.config.startup_timeout"], awaited=True), P("trio.fail_after", ["self.config.startup_timeout"]), ""),
         ("wait", P("self.startup.wait", []), P("self.startup.wait", [], awaited=True, under_with="trio.fail_after(self.config.startup_timeout)"), ""),
         ("timeout -> LifespanTimeoutError('startup')", P("LifespanTimeoutError", ["'startup'"], in_handler={"TimeoutError"}), P("LifespanTimeoutError", ["'startup'"], in_handler={"TooSlowError"}), ""),
     ]),
     ("lifespan", "Lifespan.wait_for_shutdown", "shutdown wait", [
         ("task started", P("self._started.wait", [], awaited=True), None, "D7"),
-        ("send shutdown", P("self.app_queue.put", ["{'type': 'lifespan.shutdown'}"], awaited=True, guard=("self.supported", True)), P("self.app_send_channel.send", ["{'type': 'lifespan.shutdown'}"], awaited=True, guard=("self.supported", True)), ""),
+        ("send shutdown", P("self.app_queue.put", ["{'type': 'lifespan.shutdown'}"], awaited=True, guard=("self.supported", True)), P("self.app_send_channel.send", ["{'type': 'lifespan.shutdown'}"], awaited=True, guard=("self.supported", True), in_try_with={"BrokenResourceError", "ClosedResourceError"}), ""),
         ("bounded wait", P("asyncio.wait_for", ["self.shutdown.wait()", "timeout=self.config.shutdown_timeout"], awaited=True), P("trio.fail_after", ["self.config.shutdown_timeout"]), ""),
         ("wait", P("self.shutdown.wait", []), P("self.shutdown.wait", [], awaited=True, under_with="trio.fail_after(self.config.shutdown_timeout)"), ""),
         ("timeout -> LifespanTimeoutError('shutdown')", P("LifespanTimeoutError", ["'shutdown'"], in_handler={"TimeoutError"}), P("LifespanTimeoutError", ["'shutdown'"], in_handler={"TooSlowError"}), ""),
